@@ -60,6 +60,33 @@ def selects(filt, res):
     if prefix:
         pattern = pattern[:-1]
     if pattern == b"":
+        # An empty pattern.  With '*' it is the prefix every text has; without, it equals only the
+        # empty text.  What the statement settles: a resource that lacks the attribute is not
+        # selected; "href=*" selects every resource; "rt=*" selects a resource whose rt has a
+        # non-empty, properly quoted or unquoted value.  The rest (empty and value-less
+        # attributes, the root path against "href=/") is left open.
+        if name == b"href":
+            if prefix:
+                return True
+            return None if res.path == b"" else False
+        vals = [v for n, v in res.attrs if n == name]
+        if not vals:
+            return False
+        if len(vals) == 1 and vals[0] is not None and prefix:
+            v = vals[0]
+            if v[:1] == b'"' and not (len(v) >= 2 and v[-1:] == b'"'):
+                return None
+            if unquote(v) != b"" and not unquote(v).startswith(b" ") and \
+                    not unquote(v).endswith(b" "):
+                return True
+        if len(vals) == 1 and vals[0] is not None and not prefix:
+            v = vals[0]
+            if v[:1] == b'"' and not (len(v) >= 2 and v[-1:] == b'"'):
+                return None
+            if name not in TOKEN_LIST_ATTRS and unquote(v) != b"":
+                return False
+            if name in TOKEN_LIST_ATTRS and b"" not in unquote(v).split(b" "):
+                return False
         return None
     if b"*" in pattern:
         return None
@@ -117,4 +144,7 @@ if __name__ == "__main__":
     assert selects(b"rt=hum", a) and not selects(b"rt=te", a) and selects(b"rt=te*", a)
     assert selects(b"href=/b*", b) and not selects(b"href=a", b)
     assert selects(b"rt=x", b) is False
+    assert selects(b"rt=*", b) is False and selects(b"rt=*", a) is True
+    assert selects(b"href=*", b) is True and selects(b"href=/", b) is False
+    assert selects(b"if=", a) is False and selects(b"rt=", b) is False
     print("linkformat reference self-test: OK")
